@@ -396,6 +396,17 @@ def main():
         if not any("lru_cache" in d or d.endswith(".cache") for d in decos):
             continue
         params = [a.arg for a in f.node.args.args]
+        if params[:1] == ["self"] and ":" in qn and "." in qn.split(":")[1]:
+            # a method memoised with `self` in the key is keyed by object IDENTITY only as long as its class does not define
+            # its own equality: a value-based __eq__/__hash__ makes two objects share cached results, and then equality must
+            # cover everything the method reads (which it does not have to today)
+            cname = qn.split(":")[1].split(".")[0]
+            mod_fns = [g for gq, g in ix.fns.items() if gq.startswith(qn.split(":")[0] + ":" + cname + ".") and g.name in ("__eq__", "__hash__")]
+            name = f"{qn}#memoised-method-is-keyed-by-object-identity"
+            run.add_check(name, not mod_fns, "E-FX memoisation key", 0, f"class {cname} defines {[g.name for g in mod_fns]}")
+            if mod_fns:
+                run.fail(report.Failure(name, "frame", f"{f.file}:{f.node.lineno}: {f.name} is memoised with `self` in the key, and class {cname} now defines {sorted(g.name for g in mod_fns)}: "
+                                        "objects that compare equal share cached results although they may differ in state the method reads (e.g. two encoders with different reserved patterns)", {}, False))
         takes_model = any("pydsdl" in ast.unparse(a.annotation) for a in f.node.args.args if a.annotation is not None)
         per_run_key = bool(params) and params[0] == "self" and not any("staticmethod" in d or "classmethod" in d for d in decos)
         if not takes_model:
